@@ -4,7 +4,8 @@ on the controller's clock (1 tick = 1 s), a user thread that schedules and dispo
 the timer / event-loop threads spawned as controlled threads.
 
 Scenario JSON: {"sched": "timeout"|"newthread"|"threadpool"|"eventloop",
-                "items": [{"how": "rel"|"abs"|"now", "delay": ticks, "at": schedule time, "disp": dispose time|null}, ...],
+                "items": [{"how": "rel"|"abs"|"now", "delay": ticks, "at": schedule time, "disp": dispose time|null,
+                           "tz": UTC offset in hours of the aware datetime given to schedule_absolute (optional)}, ...],
                 "first": thread, "pre": [[step, to], ...]}
 """
 from __future__ import annotations
@@ -153,7 +154,10 @@ def run_case(case, wall=8.0, max_steps=6000):
                         else:
                             due = ctl.clock + it["delay"]
                             run["due"][i] = max(due, ctl.clock)
-                            disposables[i] = sched.schedule_absolute(EPOCH + timedelta(seconds=due), mk_action(i))
+                            when = EPOCH + timedelta(seconds=due)
+                            if it.get("tz") is not None:  # the same instant written in another UTC offset
+                                when = when.astimezone(timezone(timedelta(hours=it["tz"])))
+                            disposables[i] = sched.schedule_absolute(when, mk_action(i))
                         horizon = max(horizon, run["due"][i])
                     else:
                         disposables[i].dispose()
